@@ -234,6 +234,13 @@ func (g *Gen) havocField(st *State, key string) {
 		return
 	}
 	st.heap[key] = g.newSym("H."+key, srt)
+	if !strings.Contains(key, "#") {
+		for _, sfx := range []string{"#off", "#len"} {
+			if _, ok := g.heapSort[key+sfx]; ok {
+				st.heap[key+sfx] = g.newSym("H."+key+sfx, "(Array Int Int)")
+			}
+		}
+	}
 }
 
 func (g *Gen) havocAllFields(st *State) {
